@@ -595,13 +595,138 @@ func wBridge(iters int) {
 	}
 }
 
+// l. many flows through one NAT in both directions (child router thread translates outbound while the parent
+// router thread translates inbound), short mapping lifetime so that expiry, port allocation and removal run
+// under traffic; host-name lookups through the router chain concurrent with AddHost
+func wNAT(iters int) {
+	types := []vnet.NATType{
+		{MappingBehavior: vnet.EndpointIndependent, FilteringBehavior: vnet.EndpointIndependent, MappingLifeTime: 2 * time.Millisecond},
+		{MappingBehavior: vnet.EndpointAddrPortDependent, FilteringBehavior: vnet.EndpointAddrPortDependent, MappingLifeTime: 3 * time.Millisecond},
+		{MappingBehavior: vnet.EndpointAddrDependent, FilteringBehavior: vnet.EndpointAddrDependent, MappingLifeTime: 30 * time.Second},
+		{Mode: vnet.NATModeNAT1To1},
+	}
+	for k := 0; k < iters/60+1; k++ {
+		nt := types[k%len(types)]
+		wan, err := vnet.NewRouter(&vnet.RouterConfig{CIDR: "1.2.3.0/24", LoggerFactory: vn.Silent()})
+		if err != nil {
+			panic(err)
+		}
+		cfg := &vnet.RouterConfig{CIDR: "192.168.0.0/24", StaticIPs: []string{"1.2.3.100"}, NATType: &nt, LoggerFactory: vn.Silent()}
+		if nt.Mode == vnet.NATModeNAT1To1 {
+			cfg.StaticIPs = []string{"1.2.3.100/192.168.0.1", "1.2.3.101/192.168.0.2"}
+		}
+		lan, err := vnet.NewRouter(cfg)
+		if err != nil {
+			panic(err)
+		}
+		srv, _ := vnet.NewNet(&vnet.NetConfig{StaticIPs: []string{"1.2.3.4", "1.2.3.5"}})
+		h1, _ := vnet.NewNet(&vnet.NetConfig{StaticIPs: []string{"192.168.0.1"}})
+		h2, _ := vnet.NewNet(&vnet.NetConfig{StaticIPs: []string{"192.168.0.2"}})
+		wan.AddNet(srv)
+		wan.AddRouter(lan)
+		lan.AddNet(h1)
+		lan.AddNet(h2)
+		wan.AddHost("srv.example", "1.2.3.4")
+		if err := wan.Start(); err != nil {
+			panic(err)
+		}
+		var servers []net.PacketConn
+		for _, ip := range []string{"1.2.3.4", "1.2.3.5"} {
+			for _, port := range []int{7000, 7001} {
+				c, err := srv.ListenUDP("udp", vn.UDP(ip, port))
+				if err != nil {
+					panic(err)
+				}
+				servers = append(servers, c)
+			}
+		}
+		var stop int32
+		var wg sync.WaitGroup
+		for _, c := range servers { // echo, plus an unsolicited datagram to a guessed mapped port
+			c := c
+			wg.Add(1)
+			go func() {
+				defer wg.Done()
+				buf := make([]byte, 100)
+				for {
+					n, from, err := c.ReadFrom(buf)
+					if err != nil {
+						return
+					}
+					c.WriteTo(buf[:n], from)
+					c.WriteTo([]byte("probe"), vn.UDP("1.2.3.100", 49152+rand.Intn(40)))
+					op()
+				}
+			}()
+		}
+		var clients []net.PacketConn
+		for _, h := range []*vnet.Net{h1, h2} {
+			h := h
+			for g := 0; g < 3; g++ {
+				wg.Add(1)
+				go func() {
+					defer wg.Done()
+					for atomic.LoadInt32(&stop) == 0 {
+						c, err := h.ListenUDP("udp", &net.UDPAddr{IP: net.IPv4zero})
+						if err != nil {
+							continue
+						}
+						for j := 0; j < 6; j++ {
+							c.WriteTo([]byte("ping"), vn.UDP([]string{"1.2.3.4", "1.2.3.5"}[rand.Intn(2)], 7000+rand.Intn(2)))
+							if j == 3 {
+								time.Sleep(time.Duration(rand.Intn(4)) * time.Millisecond) // let short-lived mappings expire
+							}
+						}
+						buf := make([]byte, 100)
+						c.SetReadDeadline(time.Now().Add(time.Duration(rand.Intn(2000)) * time.Microsecond))
+						c.ReadFrom(buf)
+						c.Close()
+						op()
+					}
+				}()
+			}
+			c, _ := h.ListenUDP("udp", &net.UDPAddr{IP: net.IPv4zero})
+			clients = append(clients, c)
+		}
+		for i := 0; i < 2; i++ { // name resolution walks lan -> wan resolvers while names are being added
+			i := i
+			wg.Add(1)
+			go func() {
+				defer wg.Done()
+				for n := 0; atomic.LoadInt32(&stop) == 0; n++ {
+					if i == 0 {
+						wan.AddHost(fmt.Sprintf("h%d.example", n%50), fmt.Sprintf("1.2.3.%d", 10+n%50))
+						lan.AddHost(fmt.Sprintf("l%d.example", n%50), fmt.Sprintf("192.168.0.%d", 10+n%50))
+					} else {
+						h1.ResolveUDPAddr("udp", "srv.example:7000")
+						h2.ResolveUDPAddr("udp", fmt.Sprintf("h%d.example:1", n%50))
+						h1.ResolveIPAddr("ip", fmt.Sprintf("l%d.example", n%50))
+						srv.ResolveUDPAddr("udp", "srv.example:7000")
+					}
+					op()
+				}
+			}()
+		}
+		time.Sleep(20 * time.Millisecond)
+		atomic.StoreInt32(&stop, 1)
+		for _, c := range clients {
+			c.Close()
+		}
+		for _, c := range servers {
+			c.Close()
+		}
+		wg.Wait()
+		wan.Stop()
+	}
+}
+
 var workloads = map[string]func(int){
 	"build": wBuild, "socket": wSocket, "bind": wBind, "tbf": wTBF, "filters": wFilters, "buffer": wBuffer,
-	"deadline": wDeadline, "dpipe": wDpipe, "listener": wListener, "netctx": wNetctx, "bridge": wBridge,
+	"deadline": wDeadline, "dpipe": wDpipe, "listener": wListener, "netctx": wNetctx, "bridge": wBridge, "nat": wNAT,
 }
 
 // Workloads lists the names in a fixed order (shard i runs workload i mod len).
-var order = []string{"build", "socket", "bind", "tbf", "filters", "buffer", "deadline", "dpipe", "listener", "netctx", "bridge"}
+var order = []string{"build", "socket", "bind", "tbf", "filters", "buffer", "deadline", "dpipe", "listener", "netctx", "bridge", "nat"}
 
 func main() {
 	tier := flag.String("tier", "quick", "")
@@ -616,7 +741,7 @@ func main() {
 	rand.Seed(*seed*7 + int64(*shard))
 	installYield(*seed)
 	r := res.New("C19")
-	r.Rule = "dedicated concurrent client programs (parallel construction of independent networks; one vnet socket from 7 goroutines; bind/close storm; token bucket Set under traffic; AddChunkFilter, delay and loss filters under traffic; every packetio.Buffer method concurrently; Deadline Set/Done/Err against expiring timers; dpipe both ends; UDP listener Accept/Close/conn I/O with and without batching; netctx Close during I/O; Bridge writes/Tick/configuration) under the Go race detector, free-running and with sync-free random delays at instrumented synchronisation points; reports are counted from GORACE log files and de-duplicated by the pair of innermost pion/transport frames"
+	r.Rule = "dedicated concurrent client programs (parallel construction of independent networks; one vnet socket from 7 goroutines; bind/close storm; token bucket Set under traffic; AddChunkFilter, delay and loss filters under traffic; every packetio.Buffer method concurrently; Deadline Set/Done/Err against expiring timers; dpipe both ends; UDP listener Accept/Close/conn I/O with and without batching; netctx Close during I/O; Bridge writes/Tick/configuration; many flows through one NAT in both directions with expiring mappings for four NAT types, and host-name lookups concurrent with AddHost) under the Go race detector, free-running and with sync-free random delays at instrumented synchronisation points; reports are counted from GORACE log files and de-duplicated by the pair of innermost pion/transport frames"
 	r.Assumptions = []string{"happens-before race detection reports only races whose two accesses occur in a run", "replay detectors and attaching a Net to a router while its sockets send are not documented concurrent-safe and are excluded"}
 	name := *wl
 	if name == "" {
